@@ -81,3 +81,4 @@ Lemma demo_from_empty_ok : clean empty_state (demo_build ++ demo_clean).
 Proof.
   unfold demo_build, demo_clean. cbn [app]. do 27 clean_step2. apply clean_nil.
 Qed.
+
